@@ -178,4 +178,52 @@ C16_Responses_Prop   == [][C16_Responses_Step]_dvars
 C16_ManagerOnly_Prop == [][C16_ManagerOnly_Step]_dvars
 C16_Footprint_Prop   == [][C16_Footprint_Step]_dvars
 
+
+\* ================================================================== C17 (data queries)
+\* items: "iri|attestor" for attestations, decimal resolver ids for resolvers
+LOCAL INSTANCE FiniteSets
+DQOk(S) == [err |-> FALSE, items |-> S]
+DQErr == [err |-> TRUE, items |-> {}]
+KnownIri(d, iri) == \E x \in d.ids : x.iri = iri
+IdOfIri(d, iri) == (CHOOSE x \in d.ids : x.iri = iri).id
+
+DQExpect(d, q, arg) ==
+  CASE q = "AttestationsByAttestor" ->
+         DQOk({IriOfId(d, x.id) \o "|" \o x.a : x \in {y \in d.attests : y.a = arg}})
+    [] q \in {"AttestationsByIRI", "AttestationsByHash"} ->
+         IF ~KnownIri(d, arg) THEN DQErr
+         ELSE DQOk({arg \o "|" \o x.a : x \in {y \in d.attests : y.id = IdOfIri(d, arg)}})
+    [] q \in {"ResolversByIRI", "ResolversByHash"} ->
+         IF ~KnownIri(d, arg) THEN DQErr
+         ELSE DQOk({ToString(x.rid) : x \in {y \in d.dres : y.id = IdOfIri(d, arg)}})
+    [] q = "ResolversByURL" -> DQOk({ToString(r.id) : r \in {y \in d.resolvers : y.url = arg}})
+    [] OTHER -> DQErr
+
+DSeqToSet(q) == {q[i] : i \in DOMAIN q}
+DNoDupSeq(q) == \A i, j \in DOMAIN q : i # j => q[i] # q[j]
+
+C17_DataListOK(d, x) ==
+  LET e == DQExpect(d, x.q, x.arg)
+      n == Cardinality(e.items)
+  IN
+  IF x.mode = "offset0" /\ ~e.err /\ x.offset >= n THEN TRUE
+  ELSE
+  /\ x.err = e.err
+  /\ ~x.err =>
+       /\ DNoDupSeq(x.items)
+       /\ DSeqToSet(x.items) \subseteq e.items
+       /\ IF x.mode = "offset0" THEN Len(x.items) = n - x.offset
+          ELSE DSeqToSet(x.items) = e.items
+       /\ x.total >= 0 => x.total = n
+       /\ x.mode \in {"key", "offset", "reverse"} => x.pages * x.limit >= Len(x.items)
+
+C17_DataSingleOK(d, x) ==
+  CASE x.q \in {"AnchorByIRI", "AnchorByHash"} ->
+         /\ ~x.err /\ x.riri = x.iri
+         /\ KnownIri(d, x.iri)
+         /\ \E a \in d.anchors : a.id = IdOfIri(d, x.iri) /\ a.t = x.t
+    [] x.q = "Resolver" ->
+         ~x.err /\ \E r \in d.resolvers : r.id = x.id /\ r.url = x.url /\ r.manager = x.manager
+    [] OTHER -> TRUE
+
 =============================================================================
